@@ -83,8 +83,14 @@ def instr_ast(mnem, ops):
     if mnem == "LEAQ":
         d, b, i = parse_mem(o[0])
         if i is not None:
-            raise ValueError("LEAQ with index")
+            return ".LEAQx %s %s %s %s" % (li(d), r(b), r(i), r(o[1]))
         return ".LEAQ %s %s %s" % (li(d), r(b), r(o[1]))
+    if mnem == "ADDQ" and o[0].startswith("$"):
+        return ".ADDQi %d %s" % (int(o[0][1:], 0), r(o[1]))
+    if mnem in ("ADDQ", "CMPQ") and len(o) == 2 and o[0] in REGS and o[1] in REGS:
+        return ".%s %s %s" % (mnem, r(o[0]), r(o[1]))
+    if mnem == "MOVQ" and len(o) == 2 and o[0] in REGS and o[1] in REGS:
+        return ".MOVQrr %s %s" % (r(o[0]), r(o[1]))
     if mnem == "MOVOU":
         d, b, i = parse_mem(o[0])
         return ".MOVOU %s %s %s %s" % (li(d), r(b), "(some %s)" % r(i) if i else "none", xr(o[1]))
@@ -97,15 +103,15 @@ def instr_ast(mnem, ops):
         if o[0].startswith("$"):
             return ".MOVQimm %s %s" % (li(int(o[0][1:], 0)), r(b))
         return ".MOVQst %s %s" % (r(o[0]), r(b))
-    if mnem in ("JEQ", "JZ", "JNZ", "JAE", "JMP") and len(o) == 1 and re.match(r"^\w+$", o[0]):
+    if mnem in ("JEQ", "JZ", "JNZ", "JAE", "JMP", "JB") and len(o) == 1 and re.match(r"^\w+$", o[0]):
         return '.%s "%s"' % (mnem, o[0])
     if mnem == "RET":
         return ".RET"
     raise ValueError("%s %s" % (mnem, ops))
 
 
-def small_prog(path, sym):
-    """the blocks reachable on the `len < 16` path of a search body, as an Asm.Prog literal"""
+def small_prog(path, sym, labels=("small", "endofpage", "failure", "endzero")):
+    """the named blocks of a body, in source order, as an Asm.Prog literal"""
     cur_sym, label, blocks, order = "", "", {}, []
     for raw in open(path, encoding="utf-8"):
         line = raw.split("//")[0].strip()
@@ -120,9 +126,11 @@ def small_prog(path, sym):
         if m:
             label = m.group(1)
             continue
-        if cur_sym != sym or label not in ("small", "endofpage", "failure", "endzero"):
+        if cur_sym != sym or label not in labels:
             continue
         parts = line.split(None, 1)
+        if parts[0] == "PCALIGN":
+            continue
         if label not in blocks:
             blocks[label] = []
             order.append(label)
@@ -168,6 +176,17 @@ def main():
             sys.exit(1)
         w.append("open _root_.Asm.Instr _root_.Asm.Reg _root_.Asm.XReg in")
         w.append("def small_%s : _root_.Asm.Prog := %s" % (sym, lit))
+    # the SSE search loops (labels sse … ssesuccess, in source order: execution falls through between them)
+    for f, sym in [("internal/bytealg/indexbyte_go122_amd64.s", "indexbytebody"),
+                   ("internal/bytealg/indexbyte_go122_amd64.s", "indexbytebodyCase"),
+                   ("internal/bytealg/index_non_ascii_go122_amd64.s", "indexByteBodyNonASCII")]:
+        try:
+            lit = small_prog(os.path.join(repo, f), sym, ("sse", "sseloop", "sseloopentry", "failure", "ssesuccess"))
+        except ValueError as e:
+            print("asmfacts: the SSE loop of %s uses an instruction outside the modelled subset: %s" % (sym, e))
+            sys.exit(1)
+        w.append("open _root_.Asm.Instr _root_.Asm.Reg _root_.Asm.XReg in")
+        w.append("def sse_%s : _root_.Asm.Prog := %s" % (sym, lit))
     w.append("end Gen.Asm")
     text = "\n".join(w) + "\n"
     if not (os.path.exists(out) and open(out).read() == text):
